@@ -153,7 +153,7 @@ def run(ctx: Ctx) -> None:
         if isinstance(n, ast.Assign) and isinstance(n.value, ast.Call) and call_attr(n.value) == "sort":
             ctx.fail("height.formula", hm, n, "`x = list(...).sort()` binds None (graph.nodes order is then used, as every other conversion does)",
                      func="height_dict", advisory=True)
-    ctx.floor("flow.exactly-once", 4)
+    ctx.floor("flow.exactly-once", 3)
     ctx.floor("budget.provenance", 4)
 
 
